@@ -10,7 +10,7 @@ from pyvc.contract import contract, Call, LoopSpec
 from pyvc.sx import And as sx_and
 from contracts.hostile import Safety, DOCUMENTED
 
-M_FAMILY = {'struct.error': None, 'IndexError': None, 'KeyError': None, 'UnicodeDecodeError': None, 'ValueError': None}
+M_FAMILY = {'struct.error': None, 'IndexError': None, 'KeyError': None, 'UnicodeDecodeError': None, 'ValueError': None, 'OverflowError': None}
 REPO = os.environ.get('PYVC_REPO', '/repo')
 
 
